@@ -499,14 +499,19 @@ class FnTranslator:
         return out
 
     def s_DoStmt(self, n):
+        """do S while (c);  ->  { _Bool first = 1; while (first || c) { first = 0; S } }
+        (cbmc's loop-contract instrumentation rejects do/while; `continue` still reaches the evaluation of c)"""
         body, cond = n['inner']
         k, annot = self.loop_annot()
-        # the loop ordinal of a do-while is taken *before* its body so that nested loops number outer-first
         b = self.block_braced(body)
         c = self.ex(cond)
         if self.pre:
             raise Unsupported('loop condition needs hoisting in %s' % self.key)
-        return ['do /* loop %d */' % k] + annot + b + ['while (%s);' % c]
+        f = '__first%d' % k
+        out = ['{', '  _Bool %s = 1;' % f, '  while (%s || %s) /* loop %d (do-while) */' % (f, c, k)]
+        out += ['  ' + a.replace('\\first', f) for a in annot]
+        out += ['  {', '    %s = 0;' % f] + ['    ' + l for l in b] + ['  }', '}']
+        return out
 
     def s_CXXForRangeStmt(self, n):
         inner = n['inner']
@@ -1141,7 +1146,7 @@ class FnTranslator:
     def user_call(self, key, args, selfarg, n, discard):
         fn = self.P.functions.get(key)
         ext = self.U.external(key)
-        if fn is None and ext is None:
+        if fn is None and ext is None and self.U.mode != 'modular':
             raise Unsupported('call to %s which has no body in the loaded translation units' % key)
         self.callees.add(key)
         self.U.want(key)
